@@ -514,6 +514,13 @@ def c02(tier):
             for opts in ([], ['-U']):
                 groups.append([reset(opts), run1(df11(5, a)), {'c': 'run', 'lines': [list(valid[2].encode()), list((v + tail).encode())], 'slot': 0, 'noeol': True},
                                reset(opts), {'c': 'run', 'lines': [list((v + tail).encode())], 'slot': 0, 'noeol': True, 'direct': True}])
+    # lines that are not frames on a table holding a row that is overdue, as one reader run of 15..39 lines: a line that is not a frame
+    # leaves the table untouched - it does not count towards the sweep either (round 13)
+    for k, opts in enumerate([['-d', '1'], ['-d', '0', '-U'], ['-d', '60']]):
+        nf = [[], list(b'no frame here'), list(valid[0][:27].encode()), list((valid[0] + '0').encode()), list(F.flip(valid[0], [40]).encode()),
+              list(valid[1][:13].encode()), list(('%012X' % 5 + valid[1][:13]).encode()), [0xff, 0xfe], list(('8D' + valid[1][2:]).encode())]
+        groups.append([reset(opts), run1(df17(5, 0x484200 + k, me_ident(4, 1, callsign_codes('OVERDUE')))), tick((int(opts[1]) + 1) * 1000),
+                       runn([nf[i % len(nf)] for i in range(15 + 12 * k)], slot=0)])
     conform(rep, 'C02', groups, maxlen=2500)
     rep.rule = ('lines: every DF 0..31 as 14- and 28-digit frame (valid parity / address overlay) with and without 12-digit '
                 'time stamp; digit counts %s cut from valid frames; %d randomly decorated / case-mixed / digit-inserted variants '
@@ -1439,6 +1446,9 @@ def c11(tier):
             # the IAS status of 6,0), and genuine 6,0 replies: one reply is one register
             pool += [long_(20, enc_alt13(33000), mb17(1, 1, 0, 1), a), long_(20, enc_alt13(33000), mb17(1, 0, 1, 0), a), long_(20, enc_alt13(33000), mb17(1, 1, 1, 0), a),
                      df17(5, a, me_ident(rng.randint(1, 4), rng.randint(1, 7), [32] * 8)), df17(5, a, me_ident(4, 5, callsign_codes('CAT45')))]
+            # velocity reports one of whose fields says "no information" (0), among valid ones: the latest report decides (round 13)
+            pool += [df17(5, a, me_velocity(1, 0, 0, 1, 300, 0, 10)), df17(5, a, me_velocity(1, 0, 200, 1, 0, 1, 0)),
+                     df17(5, a, me_velocity(2, 1, rng.randint(1, 400), 0, rng.randint(1, 400), 1, rng.randint(1, 100)))]
             for _ in range(3):
                 gs_ = rng.randint(60, 240)
                 pool.append(long_(rng.choice([20, 21]), enc_alt13(33000), mb50(rng.randint(-100, 100) or 1, rng.randrange(1024, 2048), gs_, rng.randint(-100, 100) or 1, max(1, min(180, gs_ + rng.randint(-30, 30)))), a))
